@@ -398,6 +398,11 @@ func (r *runner) plan(sys string, thorough bool, rng *rand.Rand) error {
 				}
 			}
 		}
+		if sys == "fmap" { // lock-step producer: the next item only after the consumer has the result of the previous one
+			if err := each(LockStepConfigs(), por, true); err != nil {
+				return err
+			}
+		}
 		if sys == "fmapch" { // every pattern of items for which the function returns nil
 			if err := each(FmapChConfigs(map[bool]int{false: 3, true: 4}[thorough], 2), por, true); err != nil {
 				return err
@@ -409,6 +414,11 @@ func (r *runner) plan(sys string, thorough bool, rng *rand.Rand) error {
 		}
 		if thorough || sys == "joinsel" {
 			if err := each(SmallConfigs(sys, 3, 1, 1), por, true); err != nil {
+				return err
+			}
+		}
+		if sys == "joinsel" { // one goroutine deals the items over the unbuffered inputs, last argument first
+			if err := each(DealerConfigs(), por, true); err != nil {
 				return err
 			}
 		}
